@@ -13,7 +13,7 @@ TRUST = ('trusted base: the connection log of the simulated network (every SYN i
 TECHNIQUE = 'deterministic simulation with connection/byte accounting at the peer, virtual clock for the rate window, admission-policy and probe-phase fault injection'
 LEVEL = 'exploration'
 BUDGET = {'quick': 200, 'thorough': 2400}
-NCASES = {'quick': 420, 'thorough': 8000}
+NCASES = {'quick': 1200, 'thorough': 8000}
 RULE = ('cases: server profile (host-key list, kex list incl. GEX algorithms and moduli policy), admission policy {always, throttle/silent/close/refuse/blackhole from connection k}, '
         'rate test on/off, RTT in {0.04 ms .. 200 ms}, clock {fine, 10 ms quanta, forward jump}, optional probe-phase fault. non-trivial: >= 2 connections were opened; distinct by '
         '(behaviour class, admission policy, RTT regime, rate test on/off, number of probe types).')
